@@ -3,17 +3,19 @@
 A real Engine / Connection / QueuePool over the fake DBAPI; a DBAPI error is injected at a symbolic DBAPI
 call of a symbolic history of execute / begin / begin_nested / commit / rollback / savepoint operations; the
 error's kind (looks like a disconnect to the dialect or not), and a ``handle_error`` listener that leaves,
-flips or restricts the classification are part of the input.  Oracle: docs "Dealing with Disconnects",
+flips or restricts the classification are part of the input; so are ``pool_recycle``, ``Connection.detach()`` as a
+history operation and up to three faults per history (e.g. a disconnect, a failing reconnect, an ordinary error).  Oracle: docs "Dealing with Disconnects",
 ``Connection.invalidate`` / ``ExceptionContext`` docstrings.
 """
 from __future__ import annotations
 
+import itertools
 import warnings
 from typing import List, Tuple
 
 from vlib import fakedb, framework
 from vlib.framework import Harness
-from vlib.symx import Assume, assume, native
+from vlib.symx import Assume, assume, native, pick
 
 try:  # warm import: symx.native()/assume() look at the tracer state (also in tracer-less replays)
     import crosshair.tracers  # noqa: F401
@@ -59,6 +61,14 @@ class Conn27(fakedb.FakeConnection):
 
 
 class Server27(fakedb.FakeServer):
+    """Adds one-shot, position-armed faults: ``armed = [k, kind]`` fails the (k+1)-th DBAPI call after arming,
+    not counting ``close()`` calls (the pool swallows errors of close(); faults in the pool's own
+    housekeeping belong to C26)."""
+
+    armed = None
+    fired = False
+    fired_conn = None  # the fake connection whose call failed (None: the connect() call itself)
+
     def connect(self):
         self.tick(None, "connect")
         c = Conn27(self, len(self.connections))
@@ -66,10 +76,20 @@ class Server27(fakedb.FakeServer):
         return c
 
     def tick(self, conn, op):
-        if self.faults.get(self.calls + 1) == "softdisc":
-            self.calls += 1
-            self.log.append((conn.id if conn is not None else -1, op))
-            raise fakedb.OperationalError("fake: disconnect")
+        a = self.armed
+        if a is not None and op != "close":
+            if a[0] == 0:
+                self.armed = None
+                self.fired = True
+                self.fired_conn = conn
+                self.calls += 1
+                self.log.append((conn.id if conn is not None else -1, op))
+                if a[1] == "error":
+                    raise fakedb.ProgrammingError("fake: injected error in " + op)
+                if a[1] == "disconnect" and conn is not None:
+                    conn.dead = True
+                raise fakedb.OperationalError("fake: disconnect")  # "softdisc": the connection stays alive
+            a[0] -= 1
         super().tick(conn, op)
 
 
@@ -101,11 +121,23 @@ class _Clock:
 
 # --------------------------------------------------------------------------------------------------
 
-EXEC, BEGIN, BEGIN_NESTED, COMMIT, ROLLBACK, SP_COMMIT, SP_ROLLBACK = range(7)
-OPNAMES = ["execute", "begin", "begin_nested", "commit", "rollback", "savepoint.commit", "savepoint.rollback"]
-NOPS = len(OPNAMES)
+EXEC, BEGIN, BEGIN_NESTED, COMMIT, ROLLBACK, SP_COMMIT, SP_ROLLBACK, DETACH, INVALIDATE = range(9)
+OPNAMES = ["execute", "begin", "begin_nested", "commit", "rollback", "savepoint.commit", "savepoint.rollback", "detach", "invalidate"]
+# alphabets: 0 = the disconnect-handling operations + detach; 1 = without begin() and the savepoint handle
+# operations (longest single-fault histories); 2 = with Connection.invalidate() instead of detach (multi-fault)
+ALPHABETS = [list(range(8)), [EXEC, BEGIN_NESTED, COMMIT, ROLLBACK, DETACH], [EXEC, BEGIN_NESTED, COMMIT, ROLLBACK, INVALIDATE]]
 L_NONE, L_PASSIVE, L_FLIP, L_NOPOOL = range(4)
 LNAMES = ["no-listener", "passive-listener", "listener-flips-is_disconnect", "listener-clears-invalidate_pool_on_disconnect"]
+RECYCLE_LARGE = 100000  # never reached by the stub clock: recycling by age must not switch off invalidation
+# a fault = (which DBAPI call of the operation: 1st, 2nd, 3rd) x (looks like a disconnect to the dialect or not);
+# a 3rd call only exists when the operation reconnects first, i.e. after an earlier disconnect fault
+
+
+def nkind(nf: int) -> int:
+    return 4 if nf <= 1 else 6
+
+
+CALLNAMES = ["1st", "2nd", "3rd"]
 
 
 class PropertyViolation(Exception):
@@ -116,10 +148,10 @@ def _fail(tag: str, detail: str = ""):
     raise PropertyViolation("[[%s]] %s" % (tag, detail))
 
 
-def _setup(listener: int):
+def _setup(listener: int, recycle: int):
     registry.register("fake27", "props.C27", "Dialect27")
     srv = Server27()
-    eng = create_engine("fake27://", module=fakedb.FakeDBAPI(srv), pool_size=5)
+    eng = create_engine("fake27://", module=fakedb.FakeDBAPI(srv), pool_size=5, pool_recycle=recycle)
     seen = []
     if listener != L_NONE:
 
@@ -141,60 +173,83 @@ def _setup(listener: int):
     return eng, srv, conn, seen
 
 
-def _pick(x, lo: int, hi: int) -> int:
-    """Concrete value of the symbolic int ``x`` (known to be in [lo, hi)): binary search over solver-decided
-    comparisons, one path per feasible value (``concrete()`` may visit a value twice)."""
-    while hi - lo > 1:
-        mid = (lo + hi) // 2
-        if x < mid:
-            hi = mid
-        else:
-            lo = mid
-    return lo
+def decode_faults(n: int, nf: int, fcode: int):
+    """fcode -> {position: (call index, looks_like_disconnect)} for exactly ``nf`` faulted operations."""
+    nk = nkind(nf)
+    ci, rest = divmod(fcode, nk ** nf)
+    positions = list(itertools.combinations(range(n), nf))[ci]
+    faults = {}
+    for p in reversed(positions):
+        rest, k = divmod(rest, nk)
+        faults[p] = (k // 2, bool(k % 2))
+    return faults
 
 
-def _h_disc(n: int, op0: int, op1: int, listener: int, ops, fcode) -> bool:
-    """``ops``: the history (first / second operation fixed by the slice); ``fcode`` encodes the fault:
-    position in the history (fcode // 4), which DBAPI call of that operation fails (cursor() or the
-    statement: (fcode // 2) % 2) and whether the error looks like a disconnect to the dialect (fcode % 2)."""
-    ok = (0 <= fcode) & (fcode < 4 * n)
-    fixed = 0
-    if op0 >= 0:
-        ok = ok & (ops[0] == op0)
-        fixed = 1
-        if op1 >= 0:
-            ok = ok & (ops[1] == op1)
-            fixed = 2
-    for o in ops[fixed:]:
-        ok = ok & (0 <= o) & (o < NOPS)
-    assume(ok)  # one fork for all bounds
-    # realise the history first and drop histories that are impossible whatever SQLAlchemy does
-    # (savepoint operation without an earlier begin_nested) before any engine is built
-    cops = []
+def nfcodes(n: int, nf: int) -> int:
+    return len(list(itertools.combinations(range(n), nf))) * nkind(nf) ** nf
+
+
+def _statically_possible(cops, faults, flip: bool) -> bool:
+    """Necessary conditions that do not depend on SQLAlchemy: a savepoint operation needs an earlier
+    begin_nested; an armed fault must be able to fire -- DBAPI calls per operation on a valid connection:
+    execute / begin_nested / savepoint operations 2 (cursor, statement), commit / rollback 1, begin / detach 0;
+    only after an earlier effective disconnect fault or invalidate() a reconnect may add one call (connect) to
+    execute / begin / begin_nested."""
     nested_seen = 0
-    for i in range(n):
-        o = _pick(ops[i], 0, NOPS) if i >= fixed else (op0 if i == 0 else op1)
-        if o in (SP_COMMIT, SP_ROLLBACK):
-            assume(nested_seen > 0)
+    maybe_invalid = False
+    for i, o in enumerate(cops):
+        if o in (SP_COMMIT, SP_ROLLBACK) and nested_seen == 0:
+            return False
         if o == BEGIN_NESTED:
             nested_seen += 1
+        f = faults.get(i)
+        if f is not None:
+            call, looks = f
+            most = {EXEC: 2, BEGIN: 0, BEGIN_NESTED: 2, COMMIT: 1, ROLLBACK: 1, SP_COMMIT: 2, SP_ROLLBACK: 2, DETACH: 0, INVALIDATE: 0}[o]
+            if maybe_invalid and o in (EXEC, BEGIN, BEGIN_NESTED):
+                most += 1
+            if call >= most:
+                return False
+            if looks != flip:
+                maybe_invalid = True
+        if o == INVALIDATE:
+            maybe_invalid = True
+    return True
+
+
+def _h_disc(n: int, alpha: int, listener: int, recycle: int, nf: int, op0: int, ops, fcode) -> bool:
+    """``ops[i]`` indexes ``ALPHABETS[alpha]`` (the first operation is fixed by the slice if ``op0 >= 0``);
+    ``fcode`` encodes which ``nf`` operations suffer a DBAPI error, at which of their DBAPI calls, and whether
+    the error looks like a disconnect to the dialect (see decode_faults)."""
+    alphabet = ALPHABETS[alpha]
+    ok = (0 <= fcode) & (fcode < nfcodes(n, nf))
+    for o in ops:
+        ok = ok & (0 <= o) & (o < len(alphabet))
+    if op0 >= 0:
+        ok = ok & (ops[0] == op0)
+    assume(ok)  # one fork for all bounds (pick() then never forks on its own range checks)
+    cops = []
+    for i in range(n):
+        o = alphabet[op0 if (i == 0 and op0 >= 0) else pick(ops[i], len(alphabet))]
         cops.append(o)
-    fcode = _pick(fcode, 0, 4 * n)
-    fpos, off, looks_disc = fcode // 4, (fcode // 2) % 2, bool(fcode % 2)
-    assume(cops[fpos] != BEGIN)  # begin() makes no DBAPI call: identical to a history without fault
+        # savepoint operation without an earlier begin_nested: impossible whatever SQLAlchemy does
+        assume(_statically_possible(cops, {}, False))
+    faults = decode_faults(n, nf, pick(fcode, nfcodes(n, nf)))
+    assume(_statically_possible(cops, faults, listener == L_FLIP))
     # from here on everything is concrete: the real SQLAlchemy code runs with the tracer paused
     try:
-        return native(_run_concrete, n, listener, cops, fpos, off, looks_disc)
+        return native(_run_concrete, listener, recycle, cops, faults)
     except Assume:
         assume(False)  # a precondition that depends on what SQLAlchemy did (see _run)
 
 
 def _make(n: int):
-    def h(op0, op1, listener, ops, fcode):
-        return _h_disc(n, op0, op1, listener, ops, fcode)
+    def h(alpha, listener, recycle, nf, op0, ops, fcode):
+        return _h_disc(n, alpha, listener, recycle, nf, op0, ops, fcode)
 
     h.__name__ = h.__qualname__ = "h_disc_%d" % n
-    h.__annotations__ = {"op0": int, "op1": int, "listener": int, "ops": Tuple[(int,) * n], "fcode": int, "return": bool}
+    h.__annotations__ = {"alpha": int, "listener": int, "recycle": int, "nf": int, "op0": int,
+                         "ops": Tuple[(int,) * n], "fcode": int, "return": bool}
     return h
 
 
@@ -203,35 +258,42 @@ H_DISC = {n: _make(n) for n in range(1, MAXN + 1)}
 globals().update({h.__name__: h for h in H_DISC.values()})
 
 
-def _run_concrete(n, listener, ops, fpos, off, looks_disc) -> bool:
+def _run_concrete(listener, recycle, ops, faults) -> bool:
     saved_time = pool_base.time
     pool_base.time = _Clock()
     try:
         with warnings.catch_warnings():
             warnings.simplefilter("ignore")
-            return _run(n, listener, ops, fpos, off, looks_disc)
+            return _run(listener, recycle, ops, faults)
     finally:
         pool_base.time = saved_time
 
 
-def _run(n, listener, ops, fpos, off, looks_disc) -> bool:
-    eng, srv, conn, seen = _setup(listener)
+def _run(listener, recycle, ops, faults) -> bool:
+    n = len(ops)
+    eng, srv, conn, seen = _setup(listener, recycle)
     if [c.id for c in srv.connections] != [0, 1, 2] or eng.pool.checkedin() != 2:
         _fail("setup")
-    effective = looks_disc != (listener == L_FLIP)  # what SQLAlchemy has to act upon
-    kind = ("disconnect" if effective else "softdisc") if looks_disc else "error"
+    flip = listener == L_FLIP
+    cfg = LNAMES[listener] + (":pool_recycle" if recycle > -1 else "")
     # model ------------------------------------------------------------------------------------
     in_txn = False          # the Connection has a transaction object
     nsp = 0                 # savepoints the model knows to be open
     blocked = None          # None | "disconnect" | "failed-commit": must rollback() before anything else
     vague = False           # after a failed savepoint statement: only the invariants are checked
     stale = []              # fake connections that must never be handed out again
-    disconnected = False
+    disconnected = False    # a connection in use was invalidated (effective disconnect or Connection.invalidate())
+    pool_invalidated = False  # ... by a disconnect that also invalidates the pooled connections
+    detached = False        # the DBAPI connection in use was detached from the pool
+    ever_detached = False
+    detached_raws = []
+    deferred = None         # a minor finding reported only if nothing else fails in this history
     sps = []                # NestedTransaction handles of the current transaction
     committed: List[int] = []
     pending: List[List[int]] = [[]]  # rows per savepoint level
     loose_rows = False      # rows of a transaction whose COMMIT/ROLLBACK/savepoint statement failed may linger (C23)
-    fired_at = None
+    nfired = 0
+    last = "no-fault"
     for i in range(n):
         op = ops[i]
         name = OPNAMES[op]
@@ -240,10 +302,14 @@ def _run(n, listener, ops, fpos, off, looks_disc) -> bool:
         was_invalid = conn.invalidated
         raw0 = None if was_invalid else conn.connection.dbapi_connection
         nconn0 = len(srv.connections)
+        closed0 = [c.closed for c in srv.connections]
         committed0 = list(srv.committed)
-        calls0 = srv.calls
-        if i == fpos:
-            srv.faults[srv.calls + 1 + off] = kind
+        f = faults.get(i)
+        effective = False
+        if f is not None:
+            effective = f[1] != flip  # what SQLAlchemy has to act upon
+            srv.fired = False
+            srv.armed = [f[0], ("disconnect" if effective else "softdisc") if f[1] else "error"]
         err = None
         try:
             if op == EXEC:
@@ -260,32 +326,100 @@ def _run(n, listener, ops, fpos, off, looks_disc) -> bool:
                 sps[-1].commit()
             elif op == SP_ROLLBACK:
                 sps[-1].rollback()
+            elif op == DETACH:
+                conn.detach()
+            elif op == INVALIDATE:
+                conn.invalidate()
         except (sa_exc.DBAPIError, sa_exc.InvalidRequestError) as e:
             err = e
         fired = False
-        if i == fpos:
-            fired = srv.calls >= calls0 + 1 + off
-            srv.faults.clear()
-            if fired:
-                fired_at = name
+        if f is not None:
+            fired = srv.fired
+            srv.armed = None
+            # a fault that cannot fire in this state is the same history with one fault less (other slice)
+            assume(fired)
         what = "%s%s" % (name, ":blocked-by-" + blocked if blocked else "")
-        if fired:
-            what = "%s-at-%s:%s" % (("disconnect" if effective else "ordinary-error"), name, LNAMES[listener])
+        reconnect_failed = False
+        if op == INVALIDATE:
+            # Connection.invalidate(): closes and discards this DBAPI connection only; with a transaction in
+            # progress every further use raises until rollback(); a no-op on an invalidated Connection
+            if err is not None:
+                _fail("%s:raises" % what, repr(err))
+            if not was_invalid:
+                if not conn.invalidated:
+                    _fail("%s:connection-not-invalidated" % what)
+                if not raw0.closed:
+                    if detached:
+                        deferred = ("disconnect-on-detached-connection:dbapi-connection-not-closed", what, raw0)
+                    else:
+                        _fail("%s:dbapi-connection-not-closed" % what)
+                if len(srv.connections) != nconn0 or [c.closed for c in srv.connections if c is not raw0] != [
+                        x for c, x in zip(srv.connections, closed0) if c is not raw0]:
+                    _fail("%s:pool-touched" % what, repr([(c.id, c.closed) for c in srv.connections]))
+                disconnected = True
+                if raw0 not in stale:
+                    stale.append(raw0)
+                detached = False
+                pending = [[]]
+                loose_rows = False
+                committed = list(srv.committed)
+                if vague:
+                    in_txn = conn.get_transaction() is not None
+                    vague = False
+                blocked = "disconnect" if (in_txn or blocked is not None) else None
+                in_txn = blocked is not None
+            elif len(srv.connections) != nconn0:
+                _fail("%s:opened-a-dbapi-connection" % what)
+        elif fired:
+            nfired += 1
+            reconnect_failed = was_invalid and srv.fired_conn is None  # the connect() call itself failed
+            if was_invalid and not reconnect_failed:
+                # transparently reconnected, then the error hit the new (pooled) connection
+                raw0 = srv.fired_conn
+                detached = False
+            elif not was_invalid and srv.fired_conn is not raw0:
+                _fail("harness:fault-hit-another-connection")
+            what = "%s-at-%s%s%s:%s" % (("disconnect" if effective else "ordinary-error"), name,
+                                        "-while-reconnecting" if reconnect_failed else ("-after-reconnect" if was_invalid else ""),
+                                        "-detached" if detached else "", cfg)
+            last = what
             # ---- the DBAPI call failed
             if not isinstance(err, sa_exc.DBAPIError):
                 _fail("%s:error-not-raised-as-DBAPIError" % what, repr(err))
             if bool(err.connection_invalidated) != effective:
                 _fail("%s:connection_invalidated-flag" % what, repr(err.connection_invalidated))
             if listener != L_NONE:
-                if len(seen) != 1 or seen[0][0] != looks_disc or seen[0][1] is not conn:
+                if len(seen) != nfired or seen[-1][0] != f[1] or seen[-1][1] is not conn:
                     _fail("%s:handle_error-context" % what, repr(seen))
-            if effective:
+            if reconnect_failed:
+                # the reconnect attempt failed: the Connection stays invalidated, whatever the error is
+                if not conn.invalidated:
+                    _fail("%s:connection-valid-after-failed-reconnect" % what)
+                if [c.closed for c in srv.connections[:nconn0]] != closed0 and not disconnected:
+                    _fail("%s:pool-touched" % what)
+                in_txn = conn.get_transaction() is not None
+                nsp = 0
+                sps = []
+                pending = [[]]
+                blocked = "disconnect" if in_txn else None
+                vague = False
+            elif effective:
                 disconnected = True
+                if listener != L_NOPOOL:
+                    pool_invalidated = True
                 if not conn.invalidated:
                     _fail("%s:connection-not-invalidated" % what)
-                if raw0 is None or not raw0.closed:
-                    _fail("%s:dbapi-connection-not-closed" % what)
-                stale = [raw0] if listener == L_NOPOOL else list(srv.connections)
+                if not raw0.closed:
+                    if detached:
+                        # Connection.invalidate(): "an attempt will be made to close the underlying DBAPI
+                        # connection immediately" -- reported only if nothing else fails in this history
+                        deferred = ("disconnect-on-detached-connection:dbapi-connection-not-closed", what, raw0)
+                    else:
+                        _fail("%s:dbapi-connection-not-closed" % what)
+                for c in ([raw0] if listener == L_NOPOOL else list(srv.connections)):
+                    if c not in stale:
+                        stale.append(c)
+                detached = False
                 pending = [[]]
                 loose_rows = False  # the server connection is gone, and its uncommitted rows with it
                 committed = list(srv.committed)
@@ -301,8 +435,11 @@ def _run(n, listener, ops, fpos, off, looks_disc) -> bool:
                 blocked = "disconnect" if in_txn else None
                 vague = False
             else:
+                # an ordinary error: connection valid, pool untouched -- also after earlier disconnects
                 if conn.invalidated or conn.connection.dbapi_connection is not raw0 or raw0.closed:
                     _fail("%s:connection-invalidated" % what)
+                if not was_invalid and (len(srv.connections) != nconn0 or [c.closed for c in srv.connections] != closed0):
+                    _fail("%s:pool-touched" % what, repr([(c.id, c.closed) for c in srv.connections]))
                 loose_rows = True
                 if op == COMMIT:
                     blocked = "failed-commit"
@@ -332,6 +469,10 @@ def _run(n, listener, ops, fpos, off, looks_disc) -> bool:
                 vague = False
             elif op == SP_ROLLBACK:
                 pass  # rolling back the savepoint of a lost transaction: raising or not is unspecified
+            elif op == DETACH and blocked != "disconnect":
+                if err is None:
+                    detached = ever_detached = True  # not a database operation: allowed on a valid connection
+                    detached_raws.append(raw0)
             else:
                 if not isinstance(err, sa_exc.InvalidRequestError):
                     _fail("%s:does-not-raise" % what, repr(err))
@@ -343,16 +484,18 @@ def _run(n, listener, ops, fpos, off, looks_disc) -> bool:
             if srv.committed != committed0:
                 _fail("%s:committed-rows-changed" % what)
         elif vague:
+            if op == DETACH and err is None:
+                detached = ever_detached = True
+                detached_raws.append(raw0)
             if op == ROLLBACK and err is None:
                 vague = False
                 in_txn = False
                 nsp = 0
                 sps = []
                 pending = [[]]
-                committed = list(srv.committed)  # what a failed statement sequence left behind is not modelled
         else:
-            # ---- ordinary operation on a usable connection
-            expect_raise = op == BEGIN and in_txn
+            # ---- ordinary operation on a usable (or transparently reconnecting) connection
+            expect_raise = (op == BEGIN and in_txn) or (op == DETACH and was_invalid)
             if expect_raise != (err is not None):
                 _fail("%s:%s" % (what, "unexpected-error" if err is not None else "did-not-raise"), repr(err))
             if isinstance(err, sa_exc.DBAPIError):
@@ -391,6 +534,11 @@ def _run(n, listener, ops, fpos, off, looks_disc) -> bool:
                     nsp -= 1
                     sps.pop()
                     pending.pop()
+                elif op == DETACH:
+                    detached = ever_detached = True
+                    detached_raws.append(raw0)
+                    if conn.invalidated or conn.connection.dbapi_connection is not raw0 or raw0.closed:
+                        _fail("%s:detach-changes-dbapi-connection" % what)
             if not loose_rows and srv.committed != committed:
                 _fail("%s:committed-rows" % what, "%r %r" % (srv.committed, committed))
             if conn.in_transaction() != in_txn:
@@ -407,11 +555,10 @@ def _run(n, listener, ops, fpos, off, looks_disc) -> bool:
                 _fail("%s:invalidated-without-disconnect" % what)
             if len(srv.connections) != 3 or [c.closed for c in srv.connections] != [False, False, False]:
                 _fail("%s:pool-touched-without-disconnect" % what, repr([(c.id, c.closed) for c in srv.connections]))
-            if eng.pool.checkedin() != 2:
+            if eng.pool.checkedin() != (3 if detached else 2):
                 _fail("%s:pool-touched-without-disconnect" % what, eng.pool.status())
     # ---- epilogue: rollback (always allowed), then the Connection must be usable again
-    tail = "after-%s%s" % (("disconnect-at-" if disconnected else "error-at-") + fired_at if fired_at else "no-fault",
-                           ":" + LNAMES[listener] if fired_at else "")
+    tail = "after-" + last
     conn.rollback()
     if conn.in_transaction():
         _fail("%s:rollback-leaves-transaction" % tail)
@@ -422,6 +569,8 @@ def _run(n, listener, ops, fpos, off, looks_disc) -> bool:
     if cur in stale or cur.closed or cur.dead:
         _fail("%s:reconnect-uses-stale-dbapi-connection" % tail, "fake connection %d" % cur.id)
     conn.close()
+    if detached and not cur.closed:
+        _fail("%s:detached-dbapi-connection-not-closed-by-close" % tail)
     outs = [eng.connect() for _ in range(3)]
     got = [c.connection.dbapi_connection for c in outs]
     for g in got:
@@ -431,61 +580,82 @@ def _run(n, listener, ops, fpos, off, looks_disc) -> bool:
             _fail("%s:dead-dbapi-connection-handed-out" % tail, "fake connection %d" % g.id)
     if len(set(g.id for g in got)) != 3:
         _fail("%s:same-dbapi-connection-handed-out-twice" % tail)
+    if not detached and cur not in got:
+        # a valid connection given back to the pool (3 records, 3 checkouts) is used again
+        _fail("%s:valid-dbapi-connection-discarded" % tail, "fake connection %d" % cur.id)
     if disconnected:
-        if listener != L_NOPOOL:
-            if not all(s.closed for s in stale):
+        if pool_invalidated:
+            left_open = [s for s in stale if not s.closed and not (deferred and s is deferred[2])]
+            if left_open:
                 _fail("%s:stale-dbapi-connection-left-open" % tail, repr([(s.id, s.closed) for s in stale]))
         else:
-            # invalidate_pool_on_disconnect=False: "only the current connection that is the subject of the
-            # error will actually be invalidated" -- the two idle connections stay in use
-            idle = srv.connections[:2]
+            if any(not s.closed and not (deferred and s is deferred[2]) for s in stale):
+                _fail("%s:stale-dbapi-connection-left-open" % tail, repr([(s.id, s.closed) for s in stale]))
+            # Connection.invalidate() / invalidate_pool_on_disconnect=False: "only the current connection that is
+            # the subject of the error will actually be invalidated" -- the two idle connections stay in use
+            idle = [c for c in srv.connections[:2] if c not in detached_raws]  # unless the user detached them later
             if any(c.closed for c in idle) or not all(c in got for c in idle):
                 _fail("%s:idle-connections-invalidated" % tail, repr([(c.id, c.closed) for c in idle]))
     else:
-        # pool contents identical: the same three DBAPI connections, nothing opened, nothing closed
-        if sorted(g.id for g in got) != [0, 1, 2] or len(srv.connections) != 3:
+        # pool contents identical: the same DBAPI connections, nothing opened, nothing closed (a detached
+        # connection is closed by Connection.close() and replaced by one new connection)
+        expect = [0, 1, 3] if ever_detached else [0, 1, 2]
+        if sorted(g.id for g in got) != expect or len(srv.connections) != max(expect) + 1:
             _fail("%s:pool-contents-changed" % tail, repr([g.id for g in got]))
     for c in outs:
         c.close()
+    if deferred is not None:
+        _fail(deferred[0], deferred[1])
     return True
 
 
 # --------------------------------------------------------------------------------------------------
 
 META = {
-    "explanation": "Real Engine/Connection/QueuePool over a fake DBAPI; one DBAPI error is injected at a symbolic DBAPI call "
-                   "(cursor() or the statement itself) of a symbolic operation history; error kind, handle_error listener "
-                   "behaviour and history are inputs: the solver decides every step and the fault code (binary search over z3-decided "
-                   "comparisons), impossible histories are cut before an engine is built, and the SQLAlchemy code then runs on the "
-                   "realised input (no symbolic value can reach it).  Checked: DBAPIError.connection_invalidated, Connection.invalidated, "
-                   "identity/closedness of every fake DBAPI connection handed out afterwards, 'raises until rollback()', "
-                   "transparent reconnect after rollback(), and that ordinary errors leave pool and connection untouched.",
+    "explanation": "Real Engine/Connection/QueuePool over a fake DBAPI; up to three DBAPI errors are injected at symbolic DBAPI calls "
+                   "(connect(), cursor() or the statement) of a symbolic operation history; error kind, handle_error listener "
+                   "behaviour, pool_recycle and history are inputs: the solver decides every step and the fault code (binary search "
+                   "over z3-decided comparisons), impossible histories are cut before an engine is built, and the SQLAlchemy code then "
+                   "runs on the realised input (no symbolic value can reach it).  Checked: DBAPIError.connection_invalidated, "
+                   "Connection.invalidated, identity/closedness of every fake DBAPI connection handed out afterwards, 'raises until "
+                   "rollback()', transparent reconnect after rollback(), a failed reconnect leaves the Connection invalidated, and "
+                   "ordinary errors leave pool and connection untouched (also after earlier disconnects).",
     "functions": [
         "engine.base.Connection.{_handle_dbapi_exception,_revalidate_connection,_invalid_transaction,invalidate,invalidated,connection,"
-        "exec_driver_sql,_execute_context,begin,begin_nested,commit,rollback,_commit_impl,_rollback_impl,_savepoint_impl,"
+        "exec_driver_sql,_execute_context,begin,begin_nested,commit,rollback,detach,_begin_impl,_commit_impl,_rollback_impl,_savepoint_impl,"
         "_release_savepoint_impl,_rollback_to_savepoint_impl,close}",
         "engine.base.{RootTransaction,NestedTransaction}._do_commit/_do_rollback/_close_impl",
         "engine.base.ExceptionContextImpl; events handle_error (is_disconnect, invalidate_pool_on_disconnect)",
-        "pool.base.Pool._invalidate, _ConnectionRecord.{invalidate,get_connection,checkout,checkin}, _ConnectionFairy.invalidate",
+        "pool.base.Pool._invalidate, _ConnectionRecord.{invalidate,get_connection,checkout,checkin,_checkin_failed}, "
+        "_ConnectionFairy.{invalidate,detach,_checkin}, _finalize_fairy (detached path)",
         "pool.impl.QueuePool._do_get/_do_return_conn",
     ],
     "bounds": {
-        "quick": {"history length": "<=3 (7 operations) for all listener modes; 4 without listener and with the flipping listener", "fault": "one DBAPI error at any operation, "
-                  "at cursor() or at the statement; kinds: disconnect, looks-like-disconnect-but-alive, ordinary",
+        "quick": {"one fault": "histories <=3 over 8 operations for every listener mode (pool_recycle -1) and, without listener, "
+                               "pool_recycle=%d; 4 over ALPHABETS[1] without listener, pool_recycle=%d" % (RECYCLE_LARGE, RECYCLE_LARGE),
+                  "two faults": "histories of 3 over ALPHABETS[2] (with Connection.invalidate()), without listener", "no fault": "histories <=3",
+                  "fault": "a DBAPI error at the 1st/2nd/3rd DBAPI call of an operation (connect when reconnecting, cursor(), statement); "
+                           "kinds: disconnect, looks-like-disconnect-but-alive, ordinary",
                   "listeners": LNAMES, "pool": "QueuePool(5) holding 2 idle older connections + the one in use"},
-        "thorough": {"history length": "<=4 for all listener modes; 5 without listener", "fault": "as quick", "listeners": LNAMES, "pool": "as quick"},
+        "thorough": {"one fault": "histories <=4 for every listener mode x pool_recycle in {-1, %d}; 5 over ALPHABETS[1] without listener" % RECYCLE_LARGE,
+                     "two faults": "histories <=4 over ALPHABETS[2], without listener and flipping listener, both pool_recycle values; 3 over ALPHABETS[1]",
+                     "three faults": "histories of 3 over ALPHABETS[2] without listener / flipping listener, of 4 without listener",
+                     "fault": "as quick", "listeners": LNAMES, "pool": "as quick"},
     },
     "outside": [
-        "more than one fault per history; faults during pool reset / Connection.close() (C26); pre_ping",
+        "faults during pool reset / Connection.close() and in close() calls of discarded connections (C26); pre_ping",
         "whether autobegin has happened when the very first statement of a transaction fails (taken from get_transaction())",
         "savepoint.rollback() on a Connection that waits for rollback(): may raise or not",
         "state after an *ordinary* error inside SAVEPOINT / RELEASE / ROLLBACK TO / ROLLBACK statements: only the invariants "
         "(connection valid, pool untouched, nothing handed out twice) are checked until the next successful rollback()",
+        "whether a *failed reconnect* classified as a disconnect should invalidate pooled connections once more",
         "row-level effects of a rollback() after a failed COMMIT (checked by C23's failed-commit harness)",
+        "pool_recycle actually expiring connections (the stub clock never reaches it)",
         "is_exit_exception (KeyboardInterrupt etc.) handling, threads, real servers",
     ],
     "stubs": ["vlib/fakedb.py fake DBAPI, extended in props/C27.py: savepoint statements go through cursor.execute (so that failures reach "
-              "_handle_dbapi_exception), 'softdisc' fault = error that looks like a disconnect but leaves the server connection alive",
+              "_handle_dbapi_exception), faults armed on the k-th DBAPI call of an operation, 'softdisc' fault = error that looks like a "
+              "disconnect but leaves the server connection alive",
               "sqlalchemy.pool.base.time replaced by a strictly increasing counter during the harness"],
     "assumptions": ["engine creation and everything after the solver has fixed history and fault run concretely (tracer paused)",
                     "time is strictly increasing between pool state changes (the code's own NOTE in _ConnectionRecord.get_connection)",
@@ -493,36 +663,41 @@ META = {
 }
 
 
-_FIRST = (EXEC, BEGIN, BEGIN_NESTED, COMMIT, ROLLBACK)  # a savepoint operation cannot come first
-
-
-def _slices(n: int, listener: int, split: int):
-    """split 0: one slice; 1: one slice per first operation; 2: per first and second operation."""
-    if split == 0:
-        return [dict(op0=-1, op1=-1, listener=listener)]
-    out = []
-    for op0 in _FIRST:
-        if split == 1:
-            out.append(dict(op0=op0, op1=-1, listener=listener))
-            continue
-        for op1 in range(NOPS):
-            if op1 in (SP_COMMIT, SP_ROLLBACK) and op0 != BEGIN_NESTED:
-                continue
-            out.append(dict(op0=op0, op1=op1, listener=listener))
-    return out
+def _slices(n: int, alpha: int, listener: int, recycle: int, nf: int, split: bool):
+    """One slice, or one per first operation."""
+    base = dict(alpha=alpha, listener=listener, recycle=recycle, nf=nf)
+    if not split:
+        return [dict(base, op0=-1)]
+    return [dict(base, op0=j) for j, o in enumerate(ALPHABETS[alpha]) if o not in (SP_COMMIT, SP_ROLLBACK)]
 
 
 def harnesses(tier: str) -> List[Harness]:
     q = tier == "quick"
     per_n = {n: [] for n in range(1, MAXN + 1)}
+    for n in (1, 2, 3):
+        per_n[n] += _slices(n, 0, L_NONE, -1, 0, False)  # no fault
     for listener in range(4):
-        per_n[1] += _slices(1, listener, 0)
-        per_n[2] += _slices(2, listener, 0)
-        per_n[3] += _slices(3, listener, 1)
-        if not q or listener in (L_NONE, L_FLIP):
-            per_n[4] += _slices(4, listener, 1 if q else 2)
-    if not q:
-        per_n[5] += _slices(5, L_NONE, 2)
+        for recycle in (-1, RECYCLE_LARGE):
+            if q and recycle > -1 and listener != L_NONE:
+                continue
+            per_n[1] += _slices(1, 0, listener, recycle, 1, False)
+            per_n[2] += _slices(2, 0, listener, recycle, 1, False)
+            per_n[3] += _slices(3, 0, listener, recycle, 1, True)
+            if not q:
+                per_n[4] += _slices(4, 0, listener, recycle, 1, True)
+    if q:
+        per_n[4] += _slices(4, 1, L_NONE, RECYCLE_LARGE, 1, True)
+        per_n[3] += _slices(3, 2, L_NONE, -1, 2, True)
+    else:
+        per_n[5] += _slices(5, 1, L_NONE, -1, 1, True)
+        for listener in (L_NONE, L_FLIP):
+            for recycle in (-1, RECYCLE_LARGE):
+                per_n[2] += _slices(2, 2, listener, recycle, 2, False)
+                per_n[3] += _slices(3, 2, listener, recycle, 2, True)
+                per_n[4] += _slices(4, 2, listener, recycle, 2, True)
+            per_n[3] += _slices(3, 1, listener, -1, 2, True)
+            per_n[3] += _slices(3, 2, listener, -1, 3, True)
+        per_n[4] += _slices(4, 2, L_NONE, -1, 3, True)
     return [Harness("disconnect_history_n%d" % n, H_DISC[n], sl, budget_s=150 if q else 800) for n, sl in per_n.items() if sl]
 
 
@@ -536,10 +711,11 @@ def _tag(rep) -> str:
 def classify(hname, args, rep):
     tag = _tag(rep)
     exc_s = (rep or {}).get("exception") or ""
-    hist = [OPNAMES[o] for o in args["ops"]]
-    fc = args["fcode"]
-    desc = "history %s, fault at op %d call +%d (%s), %s" % (
-        hist, fc // 4, (fc // 2) % 2, "looks like disconnect" if fc % 2 else "ordinary error", LNAMES[args["listener"]])
+    n = len(args["ops"])
+    hist = [OPNAMES[ALPHABETS[args["alpha"]][o]] for o in args["ops"]]
+    faults = decode_faults(n, args["nf"], args["fcode"])
+    fdesc = ["op %d %s call %s" % (p, CALLNAMES[c], "looks like disconnect" if l else "ordinary error") for p, (c, l) in sorted(faults.items())]
+    desc = "history %s, faults %s, %s, pool_recycle=%s" % (hist, fdesc or "none", LNAMES[args["listener"]], args["recycle"])
     key = "C27:" + (tag or "history:%s" % "/".join(hist))
     return key, "%s: %s  [key %s]" % (desc, exc_s[:300], key)
 
